@@ -99,9 +99,14 @@ def combine_simulation_results(
         result_list1 = simresults1[name]
         result_list2 = simresults2[name]
         type_code = result_list1[0].type_code
+        # A CHOICETYPE Result can only be created with its number of choices
+        choice_num = None
+        if type_code == Result.CHOICETYPE:
+            # pylint: disable=W0212
+            choice_num = len(result_list1[0]._value)
         for unpack in combined_params.get_unpacked_params_list():
             # Create an empty Result object.
-            result_object = Result(name, type_code)
+            result_object = Result(name, type_code, choice_num=choice_num)
 
             # Dictionary with the current unpack variation
             fixed_parameters = unpack.parameters
